@@ -83,6 +83,25 @@ func (u *Unit) call(st *State, c *ast.CallExpr) []Val {
 			return u.inlineLit(st, lit, args, c)
 		}
 		args := u.evalArgs(st, c, sigT)
+		// call through a struct field of function type: contract keyed (Type).Field
+		if sel != nil && sel.Kind() == types.FieldVal && fo.IsField() {
+			_, named := recvTypeName(sel.Recv())
+			if named != nil && named.Obj().Pkg() != nil {
+				pk := named.Obj().Pkg().Path()
+				key := "(" + named.Obj().Name() + ")." + fo.Name()
+				if ct := u.eng.lookupContract(pk, key); ct != nil {
+					return u.applyContract(st, ct, pk, key, nil, sigT, nil, args, c.Pos(), nil)
+				}
+			}
+		}
+		// value of a named function type with a `functype` contract
+		if named, ok := types.Unalias(fo.Type()).(*types.Named); ok && named.Obj().Pkg() != nil {
+			pk, key := named.Obj().Pkg().Path(), "type:"+named.Obj().Name()
+			if ct := u.eng.lookupContract(pk, key); ct != nil {
+				u.eval(st, fun)
+				return u.applyContract(st, ct, pk, key, nil, sigT, nil, args, c.Pos(), nil)
+			}
+		}
 		fv := u.eval(st, fun)
 		return u.callUnknown(st, "func value "+exprString(fun), sigT, args, c.Pos(), &fv)
 	}
@@ -384,9 +403,7 @@ func recvList(r *Val) []Val {
 // library function, in which case only the results are arbitrary.
 func (u *Unit) callUnknown(st *State, what string, sig *types.Signature, args []Val, pos token.Pos, fv *Val) []Val {
 	u.warnings = append(u.warnings, fmt.Sprintf("%s: call of %s without contract: results arbitrary, heap havocked", u.posStr(pos), what))
-	for _, k := range u.allHeapKeys() {
-		u.havocHeap(st, k)
-	}
+	u.havocAll(st)
 	var res []Val
 	for i := 0; i < sig.Results().Len(); i++ {
 		rt := sig.Results().At(i).Type()
@@ -486,7 +503,7 @@ func (u *Unit) applyContract(st *State, ct *Contract, pk, key string, _ any, sig
 	var resSig *types.Signature = sig
 	if ct.Pure && resSig.Results().Len() == 1 {
 		vals := append(recvList(recv), args...)
-		results = []Val{u.pureApp(pk, key, vals, resSig.Results().At(0).Type())}
+		results = []Val{u.pureApp(pk, key, vals, resSig.Results().At(0).Type(), st)}
 	} else {
 		for i := 0; i < resSig.Results().Len(); i++ {
 			rt := resSig.Results().At(i).Type()
@@ -591,11 +608,7 @@ func (u *Unit) havocModifies(st, pre *State, ct *Contract, env *SpecEnv, lit *as
 //   name                     captured variable of a closure
 func (u *Unit) havocTarget(st, pre *State, m string, env *SpecEnv, lit *ast.FuncLit) {
 	if m == "heap" {
-		for _, k := range u.allHeapKeys() {
-			if k != allocKey {
-				u.havocHeap(st, k)
-			}
-		}
+		u.havocAll(st)
 		return
 	}
 	if strings.HasPrefix(m, "global.") {
@@ -815,7 +828,9 @@ func (u *Unit) joinN(base *State, arms []*State, extra [][]Val) (*State, []Val) 
 		}
 		return arms[0], ex
 	}
+	epoch := u.syncEpochs(arms)
 	out := base.clone()
+	out.epoch = epoch
 	nb := len(base.hyps)
 	paths := make([]string, len(arms))
 	for i := range arms {
@@ -898,12 +913,19 @@ func (u *Unit) joinN(base *State, arms []*State, extra [][]Val) (*State, []Val) 
 		}
 	}
 	for k := range hk {
-		dflt := base.heap[k]
-		if dflt == "" {
-			dflt = u.heapGet(out, k, u.heapSorts[k])
+		for _, a := range arms {
+			if _, ok := a.heap[k]; !ok {
+				u.heapGet(a, k, u.heapSorts[k])
+			}
 		}
-		t := pick(func(s *State) (string, bool) { v, ok := s.heap[k]; return v, ok }, "", dflt)
-		u.heapSet(out, k, u.heapSorts[k], t)
+		t := pick(func(s *State) (string, bool) { v, ok := s.heap[k]; return v, ok }, "", "")
+		delete(out.heap, k)
+		out.heap[k] = t
+		if len(t) > 120 {
+			n := u.fresh(k, u.heapSorts[k])
+			out.assume(sEq(n, t))
+			out.heap[k] = n
+		}
 	}
 	// ghost
 	gk := map[string]bool{}
